@@ -351,6 +351,30 @@ def run(tier, seed):
                                    "specified": "ValueError", "stream_name": fn or "NamedTemporaryFile"})
             finally:
                 fh.close()
+        # SPHERE files written by the container's own writer (libsndfile's NIST format): 16- and 32-bit samples, either byte order
+        import soundfile
+        if "NIST" in soundfile.available_formats():
+            for subtype, dt in (("PCM_16", np.int16), ("PCM_32", np.int32)):
+                for endian in ("BIG", "LITTLE"):
+                    for nch in (1, 2, 3):
+                        info = np.iinfo(dt)
+                        x = nprng.randint(info.min, info.max, size=(37, nch) if nch > 1 else (37,)).astype(dt)
+                        x.reshape(-1)[:2] = (info.min, info.max)
+                        soundfile.write("own.sph", x, 8000, subtype=subtype, endian=endian, format="NIST")
+                        for src in ("path", "stream"):
+                            run.evaluations += 1
+                            try:
+                                with warnings.catch_warnings():
+                                    warnings.simplefilter("ignore")
+                                    got = util.read_signal("own.sph") if src == "path" else util.read_signal(open("own.sph", "rb"), force_as="sph")
+                            except Exception as e:
+                                run.violation({"kind": "read_signal_raised", "reader": "sph", "writer": "libsndfile NIST", "subtype": subtype, "endian": endian,
+                                               "channels": nch, "src": src, "error": repr(e)})
+                                continue
+                            if not same(got, x):
+                                run.violation({"kind": "read_back_differs_from_stored", "reader": "sph", "writer": "libsndfile NIST", "subtype": subtype,
+                                               "endian": endian, "channels": nch, "src": src, "got_dtype": str(getattr(got, "dtype", None)),
+                                               "got_shape": list(getattr(got, "shape", []))})
         # key selects the named entry (npz / hdf5), default entries
         key_checks(run, nprng)
         # wds_read_signal
